@@ -328,4 +328,70 @@ def run (s : Sys) : List Op → Sys
 /-- `sync_and_flush_to_disk(with_cleanup)` executed without interruption. -/
 def flushOps (i : Nat) (wc : Bool) (ch : List Nat) : List Op := [.flushLoad i ch, .flushCommit i wc ch]
 
+/-! ### start-up: `PeersArgs::get_bootstrap_addr` (initial_peers.rs), with the network sources switched off
+(`disable_mainnet_contacts`, no `network_contacts_url`) -/
+
+inductive StartErr
+  | noPeers
+  /-- an error of `load_cache_data` handed to the caller -/
+  | cache
+  deriving DecidableEq, Repr
+
+structure StartArgs where
+  first : Bool
+  «local» : Bool
+  ignoreCache : Bool
+  addrs : List Ma
+  count : Option Nat
+  deriving Repr
+
+/-- `min_by_key(|addr| addr.failure_rate() as u64)`: the first address of minimal key. -/
+def pickAddr : List Addr → Option Addr
+  | [] => none
+  | a :: t =>
+    match pickAddr t with
+    | none => some a
+    | some b => if frKey a ≤ frKey b then some a else some b
+
+/-- the entries in hash-map iteration order: `ord` (the implementation's order as a witness) first, then the rest -/
+def orderBy (ord : List Nat) (d : Cache) : Cache :=
+  (ord.eraseDups.filterMap fun p => (lookup p d).map fun l => (p, l)) ++ d.filter fun e => !ord.contains e.1
+
+def cachePicks (ord : List Nat) (d : Cache) : List Addr := (orderBy ord d).filterMap fun e => pickAddr e.2
+
+def trunc : Option Nat → List Addr → List Addr
+  | none, l => l
+  | some c, l => l.take c
+
+def enough : Option Nat → List Addr → Bool
+  | none, _ => false
+  | some c, l => decide (l.length ≥ c)
+
+def finish (count : Option Nat) (b : List Addr) : Except StartErr (List Addr) :=
+  if b.isEmpty then .error .noPeers else .ok (trunc count (sortByKey b))
+
+def startAddr (now : Nat) (m : Ma) : Addr := ⟨m, 0, 0, now⟩
+
+/-- `get_bootstrap_addr`: first node ⇒ nothing; `ANT_PEERS` wins over everything; local ⇒ nothing; `--peer`
+arguments; then the cache file (unless `ignore_cache`), one least-faulty address per peer; sorted and cut to
+`count`. (The early return inside the cache step yields the same value as the final step, so it is not
+modelled separately.) -/
+def startup (cfg : Cfg) (ch ord : List Nat) (now : Nat) (args : StartArgs) (env : List Ma) (file : File) :
+    Except StartErr (List Addr) :=
+  if args.first then .ok [] else
+  let envA := (env.filterMap craft).map (startAddr now)
+  if !envA.isEmpty then .ok envA else
+  if args.local then .ok [] else
+  let a := (args.addrs.filterMap craft).map (startAddr now)
+  if enough args.count a then .ok (trunc args.count (sortByKey a)) else
+  if args.ignoreCache then finish args.count a else
+  match load cfg ch now file with
+  | some d => finish args.count (a ++ cachePicks ord d)
+  | none =>
+    if startupIgnoresLoadError || decide (file = .absent) then finish args.count a else .error .cache
+
+def okB : Except StartErr (List Addr) → Bool
+  | .ok _ => true
+  | .error _ => false
+
 end SafeNet.BootCache
